@@ -42,7 +42,7 @@ ENGINES = [
      "definition) + transcription of StreamChunker::pump and StreamReader::next_record_bytes; TLC design MC over all "
      "streams/blocks/judge parameters within bounds; the same space and seeded faulty streams executed on the real code "
      "with scripted readers; TLC trace validation"},
-    {"name": "codec", "path": "specs/HcobsFormat.tla specs/HcobsCodec.tla specs/HcobsMC.tla specs/HcobsTrace.tla "
+    {"name": "codec", "path": "specs/HcobsFormat.tla specs/HcobsCodec.tla specs/HcobsMC.tla specs/HcobsOnIovec.tla specs/HcobsOnIovecMC.tla specs/HcobsTrace.tla "
      "lib/engines/codec.py harness/src/codec.rs",
      "serves_properties": ["C01", "C02", "C07", "C09"],
      "kind_free_text": "pure TLA+ definition of the HCOBS wire format (RefEncode/RefDecode) + transcription of EncoderState/"
@@ -305,7 +305,10 @@ CHECKS = {
     "C09": {
         "engine": "codec",
         "technique": "TLC trace validation of streaming observations (prefix/lag monitors in TLA+); TLC invariant on the transcribed encoder",
-        "text": "Design: TLC checks that what is consumable mid-stream in the transcribed encoder (everything before the pending header) is a prefix of "
+        "text": "Design: HcobsOnIovec.tla composes the transcribed encoder with the transcribed OwningIovec (the chunk header is a real "
+                "placeholder, a consumer drains the stable prefix at any moment in slices or bytes): TLC checks for all inputs <= 6 (8), "
+                "segmentations, copy/borrow and drain schedules that drained++consumable is a hole-free prefix of RefEncode, exactly one "
+                "placeholder is pending while open, and lag <= largest chunk + L2 + 2; HcobsMC additionally checks the stable part is a prefix of "
                 "RefEncode of every extension. Real code: after every feed and drain of every codec run the trace records total_size, consumable bytes "
                 "(content too for small runs), and for each drain (consume / advance_slices / Read with amounts below, at and far above what is "
                 "consumable) the bytes removed and the reported count; TLC checks: observed bytes never change and are a prefix of drained++finish, "
